@@ -8,6 +8,10 @@ import (
 	"math/bits"
 )
 
+// MaxKeySize is the maximum size of a key in bytes. Positions inside a key are bit offsets of
+// type Depth, so the length of a key in bits must be representable as a Depth.
+const MaxKeySize = (1<<(8*DepthSize) - 1) / 8
+
 // Key holds variable-length key.
 type Key []byte
 
